@@ -1185,6 +1185,9 @@ func (fc *FnCtx) callSiteClauses(c *ssa.Call) {
 		env := *base
 		inner := base.lookup
 		env.lookup = func(name string) (Val, bool) {
+			if name == "recv" && c.Call.IsInvoke() {
+				return fc.val(c.Call.Value), true // the interface value a method is invoked on
+			}
 			if strings.HasPrefix(name, "arg") {
 				var k int
 				if _, err := fmt.Sscanf(name, "arg%d", &k); err == nil && k >= 0 && k < len(args) {
